@@ -119,12 +119,27 @@ class heap(object):
         return ptr_page["size"]
 
 
+def _sb_components(components):
+    """Resolve '.' and '..' in @components, never climbing above the sandbox
+    base directory"""
+    out = []
+    for elt in components:
+        if not elt or elt == '.':
+            continue
+        if elt == '..':
+            if out:
+                out.pop()
+            continue
+        out.append(elt)
+    return out
+
+
 def windows_to_sbpath(path):
     """Convert a Windows path to a valid filename within the sandbox
     base directory.
 
     """
-    path = [elt for elt in path.lower().replace('/', '_').split('\\') if elt]
+    path = _sb_components(path.lower().replace('/', '_').split('\\'))
     return os.path.join(BASE_SB_PATH, *path)
 
 
@@ -133,7 +148,7 @@ def unix_to_sbpath(path):
     base directory.
 
     """
-    path = [elt for elt in path.split('/') if elt]
+    path = _sb_components(path.split('/'))
     return os.path.join(BASE_SB_PATH, *path)
 
 def get_fmt_args(fmt, cur_arg, get_str, get_arg_n):
